@@ -526,7 +526,7 @@ theorem encode_decode_sequences_blk_coded (ps : List (Enc.CodedSeq × Spec.Seq))
     simp only [List.length_append, length_bitsOfLE] at ha4 ⊢; omega)
   -- the bytes
   have hbody : Enc.encodeSeqSectionReal (ps.map (·.1)) = .ok out.toList := by
-    simp only [Enc.encodeSeqSectionReal, hbl, hbm, hbo]
+    simp only [Enc.encodeSeqSectionReal, Gen.llEncMaxLog, Gen.mlEncMaxLog, Gen.ofEncMaxLog, Gen.seqEncAvoidZeroBits, hbl, hbm, hbo]
     show Enc.dumpBytes _ = _
     have h168 : (2 * 64 + 2 * 16 + 2 * 4 : Nat) = 168 := by decide
     simp only [h168, hw0, hw1, hw2, hw3, hw4, Enc.dumpBytes, hdump]
